@@ -118,9 +118,14 @@ def pipeline_model_case(ctx, spec, work, tag):
         ctx.violate(f"distributed conversion failed: {type(e).__name__}: {e}", {"vcf_spec": spec}, "store", repr(e)[:200])
         return
     from bio2zarr import vcf2zarr
-    store = vcf2zarr.IntermediateColumnarFormat(icf)
-    vals = [int(v[0]) for v in store.fields["POS"].values]
-    sizes = [sys.getsizeof(v) for v in store.fields["POS"].values]
+    try:
+        store = vcf2zarr.IntermediateColumnarFormat(icf)
+        vals = [int(v[0]) for v in store.fields["POS"].values]
+        sizes = [sys.getsizeof(v) for v in store.fields["POS"].values]
+    except Exception as e:  # noqa: BLE001
+        ctx.violate(f"the intermediate store of a successful conversion cannot be read back: {type(e).__name__}: {e}",
+                    {"vcf_spec": spec, "column_chunk_size_MiB": ccs}, "values", repr(e)[:200])
+        return
     q = {"op": "pipe.run", "vals": vals, "explode_parts": [p["num_records"] for p in meta["partitions"]], "sizes": sizes,
          "max_bytes": int(ccs * 2**20), "chunk": chunk, "encode_parts": eparts}
     if cap is not None:
